@@ -44,7 +44,7 @@ def main():
     patches.sort()
     with multiprocessing.Pool(8) as pool:
         out = pool.map(one, patches, chunksize=1)
-    alarms = gaps = 0
+    alarms = gaps = recorded = 0
     for path, st, err, res in out:
         title = ''
         n = os.path.join(os.path.dirname(path), 'notes.md')
@@ -55,13 +55,23 @@ def main():
             continue
         a = [p for p, (c, _) in res.items() if c == 1]
         g = [p for p, (c, _) in res.items() if c == 2]
+        # robustness gaps recorded with the refactoring (undecided.txt: the properties whose check cannot read the new shape)
+        rec_f = os.path.join(os.path.dirname(path), 'undecided.txt')
+        rec = set(open(rec_f).read().split()) if os.path.exists(rec_f) else set()
+        known_g = [p for p in g if p in rec]
+        g = [p for p in g if p not in rec]
+        recovered = sorted(rec - set(known_g))
         alarms += bool(a)
         gaps += bool(g)
-        print(f'{path}: {"FALSE-ALARM " + ",".join(a) if a else ""} {"UNDECIDED " + ",".join(g) if g else ""}{"silent" if not res else ""}   {title[:90]}')
+        recorded += bool(known_g)
+        print(f'{path}: {"FALSE-ALARM " + ",".join(a) if a else ""} {"UNDECIDED " + ",".join(g) if g else ""}{"undecided as recorded " + ",".join(known_g) if known_g else ""}'
+              f'{"silent" if not res else ""}{"  (recorded gap now decided: " + ",".join(recovered) + ")" if recovered else ""}   {title[:90]}')
         for p, (c, lines) in res.items():
+            if p in known_g:
+                continue
             for l in lines:
                 print(f'      [{p}] {l[:260]}')
-    print(f'{len(out)} refactorings: {alarms} with a false alarm, {gaps} with an undecided check')
+    print(f'{len(out)} refactorings: {alarms} with a false alarm, {gaps} with an undecided check, {recorded} with a recorded robustness gap (undecided, never a violation)')
 
 
 if __name__ == '__main__':
